@@ -194,3 +194,53 @@ def master_loop_request(run, fixed=True):
             else:
                 evs.append({"e": "end"})
     return {"op": "mloop", "fixed": fixed, "events": evs}
+
+
+def msg_run_request(scn, run, in_topic, out_topic):
+    """message-level acceptor request (Core/MsgFlatRun) for a FLAT run without stimuli under a bus that logs deliveries
+    per topic: who subscribed when, which message was delivered to whom in which order, when the master began each tick;
+    the devices' responses are taken from the trace (a component is updated at most once per tick).  Returns None when the
+    run cannot be rendered (systems, stimuli, no per-topic delivery log)."""
+    import monitors
+    if S.systems(scn) or scn.get("stims"):
+        return None
+    tr = run["trace"]
+    names = [c["name"] for c in scn["components"]]
+    ins = {in_topic(n): n for n in names}
+    outs = {out_topic(n): n for n in names}
+    mt = monitors.master_tid(run)
+    actions, table, tick = [], [], -1
+    for e in tr.events:
+        k = e["k"]
+        if k == "subscribe":
+            for t in e["topics"]:
+                if t in ins:
+                    actions.append(["startComp", ins[t]])
+        elif k == "t-call" and e.get("tid") == mt:
+            tick += 1
+            actions.append(["startSched"] if tick == 0 else ["nextTick"])
+        elif k == "deliver":
+            t = e.get("topic")
+            if t in ins and e["msg"]["m"] in ("Input",):
+                actions.append(["deliverIn", ins[t]])
+            elif t in outs and e["msg"]["m"] in ("Output", "Skip"):
+                actions.append(["deliverOut", outs[t]])
+            elif t is None:
+                return None
+            elif e["msg"]["m"] not in ("Input", "Output", "Skip"):
+                return None   # interrupts, exceptions, stop messages are not part of the message-level model
+        elif k == "update":
+            table.append([max(tick, 0), e["comp"], [[p, ev(v)] for p, v in (e.get("outs") or {}).items()], e.get("call_at")])
+    return {"op": "msgrun", "inverse": inv_pairs(S.level_inverse(scn)[""]), "t0": scn.get("t0", 0), "table": table, "actions": actions}
+
+
+def compare_msg_run(run, reply):
+    diffs = []
+    if not (reply or {}).get("accepted"):
+        return [f"the message-level model does not accept the history: action #{(reply or {}).get('at')} ({(reply or {}).get('why')})"]
+    real = [[e["comp"], e["time"], canon_changes(e["inputs"])] for e in run["trace"].of("update")]
+    mod = [[o[0], o[1], o[2]] for o in reply.get("obs", [])]
+    if real != mod:
+        k = next((i for i in range(min(len(real), len(mod))) if real[i] != mod[i]), min(len(real), len(mod)))
+        diffs.append(f"message-level model: update #{k}: impl {real[k] if k < len(real) else None} model {mod[k] if k < len(mod) else None}")
+    return diffs
